@@ -18,3 +18,30 @@ Definition fastmodel_case (nl : netlist) (dflt : Z) (regmap : list (Z * Z))
                    end) (nets nl)
   :: map (fun p => assoc_d (fmems st (fst p)) (snd p) dflt) probes
   :: map (probe nl) vs.
+
+(* Printing (and parsing) 100+-bit decimal numerals dominates the cost of an evaluation, so the
+   routine comparison is by fingerprint: a polynomial hash mod 2^61-1 of each row, computed here
+   and, identically, by the harness on the implementation's row.  On a fingerprint mismatch the
+   harness falls back to spec_case / fastmodel_case, which print every value. *)
+Definition fp_P : Z := 2305843009213693951.
+Definition fingerprint (l : list Z) : Z :=
+  fold_left (fun h x => (h * 1000003 + x mod fp_P) mod fp_P) l 7.
+
+(* rows: [wfb; fast_wfb]; mask-elision decision per net; [fp spec memory; fp Fast-model memory];
+   fp of every cycle's row under Sem; fp of every cycle's row under the Fast model *)
+Definition c02_case (nl : netlist) (dflt : Z) (regmap : list (Z * Z))
+    (memmap : list (Z * list (Z * Z))) (inss : list (list (Z * Z)))
+    (probes : list (Z * Z)) : list (list Z) :=
+  let ins := map ins_of inss in
+  let '(vs, st) := run nl dflt (init_state nl dflt regmap memmap) ins in
+  let '(fvs, fs) := fast_run nl dflt (fast_init nl dflt regmap memmap) ins in
+  [b2z (wfb nl); b2z (fast_wfb nl)]
+  :: map (fun n => match nop n with
+                   | OpMemWr _ => 2
+                   | o => b2z (fast_elides o (argws nl n) (width_of nl (ndest n)))
+                   end) (nets nl)
+  :: [fingerprint (map (fun p => smems st (fst p) (snd p)) probes);
+      fingerprint (map (fun p => assoc_d (fmems fs (fst p)) (snd p) dflt) probes)]
+  :: map (fun v => fingerprint (probe nl v)) vs
+  :: map (fun v => fingerprint (probe nl v)) fvs
+  :: nil.
